@@ -52,7 +52,7 @@ EXPLANATION = ("Theorems: which_bin selects bin i exactly when the flip lies in 
                "in non-decreasing distance, stable; crossover ballots alternate opposing/own candidates in their drawn "
                "orders; restricting a drawn order to a slate keeps the relative order.")
 
-N_QUICK, N_THOROUGH = 2000, 60000
+N_QUICK, N_THOROUGH = 2000, 24000
 
 
 def cases(rng, tier, shard, nshards, phase):
